@@ -206,8 +206,7 @@ func C17(c *core.Ctx) {
 			if obj.Name() == "PopBufPkt" && cl == "MUX" {
 				// reachable only through the report.Handler interface value; buffnetlink.Server.Pop is called from the driver on the event loop
 			}
-			c.Check("R2", "bridge:"+cl+":"+obj.Name(), fn.Pos(), allowed[obj.Name()], fmt.Sprintf("goroutine class %s can reach PfcpServer.%s (foreign goroutines may only post events or close the socket)", cl, obj.Name()),
-			)
+			c.Check("R2", "bridge:"+cl+":"+obj.Name(), fn.Pos(), allowed[obj.Name()], fmt.Sprintf("goroutine class %s can reach PfcpServer.%s (foreign goroutines may only post events or close the socket)", cl, obj.Name()))
 			if !allowed[obj.Name()] {
 				for _, f := range c.Findings {
 					if f.Key == c.Prop+"/R2/bridge:"+cl+":"+obj.Name() {
@@ -268,6 +267,8 @@ func C17(c *core.Ctx) {
 		c.Check("R2", "receiver-exists:"+ch, token.NoPos, n >= 1, fmt.Sprintf("%d receive sites of %s", n, ch))
 	}
 	packetOwnsBytes(c, "R2")
+	// what is handed across the bridge is not written by the producer afterwards (shared with C10 R5)
+	freshReportLists(c, "R2")
 
 	// R3 close discipline
 	type chInfo struct {
@@ -453,6 +454,9 @@ type waitEdge struct {
 	op       core.ChanOp
 }
 
+// goroutine classes with exactly one instance per server
+var singletonClass = map[string]bool{"EL": true, "PERIO": true, "RCV": true, "MUX": true}
+
 func C18(c *core.Ctx) {
 	c.Explain = "Progress as such is not statically decidable; the ABSENCE OF A WAIT-FOR CYCLE OVER BOUNDED QUEUES is a necessary condition and exactly what the property's second sentence " +
 		"names. (R1) Nodes are the goroutine classes discovered from the source; there is an edge A -ch-> B when a function reachable from A performs a blocking operation on channel ch " +
@@ -529,6 +533,16 @@ func C18(c *core.Ctx) {
 		}
 		for _, from := range core.ClassesOf(classes, o.Fn) {
 			nBlocking++
+			// a single goroutine that is the only consumer of a bounded queue must not post to it with a
+			// blocking send: once the queue is full nobody is left to drain it
+			if o.Kind == "send" && len(other) == 1 && other[from] && singletonClass[from] {
+				k := "self>" + from + ">" + ch
+				if !seenE[k] {
+					seenE[k] = true
+					c.Check("R1", "self-wait:"+from+"-["+short(ch)+"]:"+core.FnName(o.Fn), o.Instr.Pos(), false,
+						fmt.Sprintf("%s performs a blocking send on %s (cap %d), a queue only %s itself receives from", from, short(ch), capOf[ch], from))
+				}
+			}
 			for to := range other {
 				if to == from {
 					continue
